@@ -3106,6 +3106,9 @@ skip_fasta(ESL_SQFILE *sqfp, ESL_SQ *sq)
 
   ESL_SQASCII_DATA *ascii = &sqfp->data.ascii;
 
+  /* make sure there are characters in the buffer (as header_fasta() does): end_daemon() can leave bpos == nc */
+  if (ascii->nc == ascii->bpos && (status = loadbuf(sqfp)) != eslOK) return status;
+
   c =  ascii->buf[ascii->bpos];
   while (status == eslOK && isspace(c)) status = nextchar(sqfp, &c); /* skip space (including \n) */
 
